@@ -98,6 +98,37 @@ REFACTORS = [
   dict(id="ref:history-hoisted-wrap", patch="selftest_patches/refactor_history_hoisted_wrap.diff", silent=["C30"]),
   dict(id="ref:mocap-fast-path", patch="selftest_patches/refactor_mocap_fast_path.diff", silent=["C10", "C23", "C01", "C09"]),
   dict(id="ref:compact-gather-scatter-form", patch="selftest_patches/refactor_compact_gather_scatter_form.diff", silent=["C38", "C12", "C11"]),
+  # behaviour-preserving refactors written by independent sub-agents (refactors/RFn/notes.md: bit-identical digests, suite intact)
+  dict(id="ref:RF1-1", patch="refactors/RF1/patch1.diff", silent=["C01", "C02", "C09", "C10", "C11", "C12", "C32"]),
+  dict(id="ref:RF1-2", patch="refactors/RF1/patch2.diff", silent=["C01", "C02", "C09", "C10", "C11", "C12", "C32"]),
+  dict(id="ref:RF1-3", patch="refactors/RF1/patch3.diff", silent=["C01", "C02", "C09", "C10", "C11", "C12", "C32"]),
+  dict(id="ref:RF1-4", patch="refactors/RF1/patch4.diff", silent=["C01", "C02", "C09", "C10", "C11", "C12", "C32"]),
+  dict(id="ref:RF1-5", patch="refactors/RF1/patch5.diff", silent=["C01", "C02", "C09", "C10", "C11", "C12", "C32"]),
+  dict(id="ref:RF2-1", patch="refactors/RF2/patch1.diff", silent=["C05", "C11", "C12", "C16", "C17", "C24", "C25", "C38"]),
+  dict(id="ref:RF2-2", patch="refactors/RF2/patch2.diff", silent=["C05", "C11", "C12", "C16", "C17", "C24", "C25", "C38"]),
+  dict(id="ref:RF2-3", patch="refactors/RF2/patch3.diff", silent=["C05", "C11", "C12", "C16", "C17", "C24", "C25", "C38"]),
+  dict(id="ref:RF2-4", patch="refactors/RF2/patch4.diff", silent=["C05", "C11", "C12", "C16", "C17", "C24", "C25", "C38"]),
+  dict(id="ref:RF2-5", patch="refactors/RF2/patch5.diff", silent=["C05", "C11", "C12", "C16", "C17", "C24", "C25", "C38"]),
+  dict(id="ref:RF3-1", patch="refactors/RF3/patch1.diff", silent=["C04", "C09", "C11", "C12", "C16", "C17", "C19"]),
+  dict(id="ref:RF3-2", patch="refactors/RF3/patch2.diff", silent=["C04", "C09", "C11", "C12", "C16", "C17", "C19"]),
+  dict(id="ref:RF3-3", patch="refactors/RF3/patch3.diff", silent=["C04", "C09", "C11", "C12", "C16", "C17", "C19"]),
+  dict(id="ref:RF3-4", patch="refactors/RF3/patch4.diff", silent=["C04", "C09", "C11", "C12", "C16", "C17", "C19"]),
+  dict(id="ref:RF3-5", patch="refactors/RF3/patch5.diff", silent=["C04", "C09", "C11", "C12", "C16", "C17", "C19"]),
+  dict(id="ref:RF4-1", patch="refactors/RF4/patch1.diff", silent=["C02", "C03", "C08", "C11", "C12", "C26", "C32", "C37"]),
+  dict(id="ref:RF4-2", patch="refactors/RF4/patch2.diff", silent=["C02", "C03", "C08", "C11", "C12", "C26", "C32", "C37"]),
+  dict(id="ref:RF4-3", patch="refactors/RF4/patch3.diff", silent=["C02", "C03", "C08", "C11", "C12", "C26", "C32", "C37"]),
+  dict(id="ref:RF4-4", patch="refactors/RF4/patch4.diff", silent=["C02", "C03", "C08", "C11", "C12", "C26", "C32", "C37"]),
+  dict(id="ref:RF4-5", patch="refactors/RF4/patch5.diff", silent=["C02", "C03", "C08", "C11", "C12", "C26", "C32", "C37"]),
+  dict(id="ref:RF5-1", patch="refactors/RF5/patch1.diff", silent=["C12", "C13", "C14", "C15", "C30", "C31", "C09"]),
+  dict(id="ref:RF5-2", patch="refactors/RF5/patch2.diff", silent=["C12", "C13", "C14", "C15", "C30", "C31", "C09"]),
+  dict(id="ref:RF5-3", patch="refactors/RF5/patch3.diff", silent=["C12", "C13", "C14", "C15", "C30", "C31", "C09"]),
+  dict(id="ref:RF5-4", patch="refactors/RF5/patch4.diff", silent=["C12", "C13", "C14", "C15", "C30", "C31", "C09"]),
+  dict(id="ref:RF5-5", patch="refactors/RF5/patch5.diff", silent=["C12", "C13", "C14", "C15", "C30", "C31", "C09"]),
+  dict(id="ref:RF6-1", patch="refactors/RF6/patch1.diff", silent=["C07", "C09", "C11", "C12", "C33", "C17"]),
+  dict(id="ref:RF6-2", patch="refactors/RF6/patch2.diff", silent=["C07", "C09", "C11", "C12", "C33", "C17"]),
+  dict(id="ref:RF6-3", patch="refactors/RF6/patch3.diff", silent=["C07", "C09", "C11", "C12", "C33", "C17"]),
+  dict(id="ref:RF6-4", patch="refactors/RF6/patch4.diff", silent=["C07", "C09", "C11", "C12", "C33", "C17"]),
+  dict(id="ref:RF6-5", patch="refactors/RF6/patch5.diff", silent=["C07", "C09", "C11", "C12", "C33", "C17"]),
   dict(id="ref:sig-guard-forms", subs=[sub("support.py", "  if sig >= (1 << State.NSTATE):", "  if not (sig < 2 ** State.NSTATE):", nth=0)], silent=["C15"]),
 ]
 
